@@ -93,6 +93,12 @@ func (packer *eventSerializer) encodeRecord(record *base.LogRecord, buffer []byt
 	fields := record.Fields[0:len(packer.fieldMasks)] // hide unnamed/reserved fields at the end
 	position := 0
 
+	// only the message is length-limited by the input; make sure the whole event fits before writing anything
+	if maxLength := packer.maxEncodedLength(record, fields); maxLength > len(buffer) {
+		packer.logger.Errorf("serialized log exceeds buffer limit: %d > %d", maxLength, len(buffer))
+		return 0
+	}
+
 	// root-array
 	position = fastmsgpack.EncodeArrayLen4(buffer, position, 2)
 	// root-array[0]: timestamp
@@ -202,6 +208,27 @@ func (packer *eventSerializer) encodeRecord(record *base.LogRecord, buffer []byt
 		return 0
 	}
 	return position
+}
+
+// maxEncodedLength returns an upper bound of the encoded length of the given record
+func (packer *eventSerializer) maxEncodedLength(record *base.LogRecord, fields base.LogFields) int {
+	const maxHeaderLength = 5                                    // str32 / map32 header
+	total := 1 + 10 + maxHeaderLength + 12 + maxHeaderLength + 1 // array, event time, map, "environment" key, environment map, end marker
+	for i, value := range fields {
+		if packer.fieldMasks[i] || len(value) == 0 {
+			continue
+		}
+		total += len(packer.serializedFieldKeys[i]) + maxHeaderLength
+		if rewriter := packer.fieldRewriters[i]; rewriter != nil {
+			total += rewriter.MaxFieldLength(value, record)
+		} else {
+			total += len(value)
+		}
+	}
+	for i, loc := range packer.envFieldLocators {
+		total += len(packer.serializedEnvFieldKeys[i]) + maxHeaderLength + len(loc.Get(fields))
+	}
+	return total
 }
 
 // serializeStrings serializes a slice of strings to a slice of msgpack blocks
